@@ -161,6 +161,8 @@ class CollectResult(Unit):
          "                error = OSError(exitcode, msg)\n                error.__cause__ = exc", "                raise OSError(exitcode, msg) from exc", 'never raises'),
         ('error wins only when result is None', 'if error is not None:', 'if error is not None and result is None:', 'resolved exactly once'),
         ('set_result in the error branch', 'self._future_.set_exception(error)', 'self._future_.set_result(error)', 'resolved exactly once'),
+        ('pinned-tree C20 defect: log reader stopped before the child has exited', '        multiprocessing.connection.wait([self.sentinel])\n', '', 'only after the child has exited'),
+        ('log reader not waited for', '        self._logger_thread_.join()', '        pass', 'is waited for'),
         ('future left pending after deliberate terminate', '        if error is not None:\n            self._future_.set_exception(error)\n        else:\n            self._future_.set_result(result)',
          '        if error is not None:\n            self._future_.set_exception(error)\n        elif result is not None:\n            self._future_.set_result(result)', 'resolved exactly once'),
     )
